@@ -104,7 +104,12 @@ func Load(cfg Config) (*Engine, error) {
 			overlay[k] = v
 		}
 		setsByDir[dir] = cs
-		patterns = append(patterns, "./"+p)
+		if cfg.ModDir != "" && cfg.ModDir != cfg.RepoDir {
+			// loaded from a scratch module that depends on the repository: address by import path
+			patterns = append(patterns, modulePath(cfg.RepoDir)+"/"+p)
+		} else {
+			patterns = append(patterns, "./"+p)
+		}
 	}
 	for _, x := range cfg.Extra {
 		cs, err := BuildContractSet(x.Dir, x.Mirror, cfg.StdlibDir)
@@ -205,6 +210,18 @@ func Load(cfg Config) (*Engine, error) {
 		}
 	}
 	return e, nil
+}
+
+// modulePath reads the module path of dir/go.mod.
+func modulePath(dir string) string {
+	b, err := os.ReadFile(filepath.Join(dir, "go.mod"))
+	if err != nil {
+		return ""
+	}
+	if m := regexp.MustCompile(`(?m)^module\s+(\S+)`).FindSubmatch(b); m != nil {
+		return string(m[1])
+	}
+	return ""
 }
 
 // NeutralHookOverlay maps every verif_*.go file under repoDir whose directory is not in keep to an
